@@ -14,3 +14,5 @@ import FGVerif.Proofs.C09
 #print axioms C09.one_sided_atoms_contribute_nothing
 #print axioms C09.Unrepaired.noGuard_violates
 #print axioms C09.Unrepaired.skip_violates
+#print axioms C09.getIts_simple
+#print axioms C09.getIts_ids
